@@ -23,6 +23,10 @@
                           ground terms, swaps and collisions included; `…_exact`, `…_kept_only`), Independent.eager_subs
                           (`indep_eager_subs_sem`) and the MarkovProduct/Scatter decision on names (`mpDecide_none_iff`,
                           `mpDecide_some_spec`) mean the simultaneous substitution / HEAD's guard.
+  Props/C04/Call.lean     the call sugar f(*args, **kwargs) (`callPairs`, the model of Funsor.__call__): keys are a sub-list of
+                          f.inputs (`callPairs_keys_sublist`, `callPairs_foreign`), a keyword on an input always wins and is never
+                          displaced by a positional value (`callPairs_keyword`), the i-th positional binds the i-th input
+                          (`callPairs_positional`), the rest stays unsubstituted (`callPairs_untouched`) — ONE simultaneous map.
 -/
 import FunsorVerif.Props.C04.NT
 import FunsorVerif.Props.C04.Subst
@@ -30,3 +34,4 @@ import FunsorVerif.Props.C04.Classes
 import FunsorVerif.Props.C04.Gauss
 import FunsorVerif.Props.C04.Classes2
 import FunsorVerif.Props.C04.Classes3
+import FunsorVerif.Props.C04.Call
